@@ -5,7 +5,7 @@
    (used by its direct oracle) to Spec.v. *)
 From Coq Require Import List NArith String Bool.
 Import ListNotations.
-From VF Require Export gen.Gen_C09 C09.Model C09.Spec.
+From VF Require Export gen.Gen_C09 C09.Model C09.Spec C09.Subs.
 
 Inductive pname := PIC | PPP | PIntro | PDidex | PLegacy.
 
@@ -18,6 +18,10 @@ Definition spec_of (n : pname) : spec :=
 
 Inductive case :=
 | Hist (n : pname) (ops : list op) (obs : list (res * list st * st))
+(* a history observed by several subscribers: n0 channels registered at the start (0 .. n0-1), reactions scripted
+   inside the handling of state messages, and what every channel received over the whole history *)
+| SubHist (n : pname) (ops : list op) (obs : list (res * list st * st)) (n0 : nat) (sc : script)
+          (streams : list (list sevent))
 | SpecIs (n : pname) (edges : list (string * string)) (term : list string) (abandon start : string)
          (targets : list (string * bool * string)).
 
@@ -59,9 +63,29 @@ Fixpoint targets_eqb (a b : list (string * bool * string)) : bool :=
   | _, _ => false
   end.
 
+Fixpoint sevents_eqb (a b : list sevent) : bool :=
+  match a, b with
+  | [], [] => true
+  | (p1, x) :: r, (p2, y) :: s => Bool.eqb p1 p2 && N.eqb x y && sevents_eqb r s
+  | _, _ => false
+  end.
+
+(* the state messages of a history: every announced state as PreState then PostState *)
+Definition events_of (p : proto) (ops : list op) : list sevent :=
+  flat_map (fun y => flat_map (fun a => [(true, a); (false, a)]) (snd y)) (snd (run p s0 ops)).
+
+Fixpoint check_streams (j : nat) (s : sreg) (streams : list (list sevent)) : bool :=
+  match streams with
+  | [] => true
+  | x :: r => sevents_eqb x (stream_of j s) && check_streams (S j) s r
+  end.
+
 Definition check_case (c : case) : bool :=
   match c with
   | Hist n ops obs => check_from (proto_of n) s0 ops obs
+  | SubHist n ops obs n0 sc streams =>
+      check_from (proto_of n) s0 ops obs &&
+      check_streams 0 (bcast_all sc {| reg := seq 0 n0; cnt := []; slog := [] |} (events_of (proto_of n) ops)) streams
   | SpecIs n edges term abandon start targets =>
       let sp := spec_of n in
       pairs_eqb edges (sp_edges sp) && strs_eqb term (sp_terminal sp) &&
